@@ -569,6 +569,26 @@ pub fn run(ctx: &mut Ctx) {
 		run_commands(ctx, "cmd", i, &mut r, &mut stats);
 		crate::monitors::clear_current();
 	}
+	// 4. seeks of a reversed sound to frames at or after its loop end (playback is above the loop, moving down)
+	let nr = ctx.t(20_000u64, 1_000_000u64);
+	for i in 0..nr {
+		if !ctx.owns("rev", i) {
+			continue;
+		}
+		if !ctx.replaying() && !ctx.time_left(1.0) {
+			break;
+		}
+		let mut r = Rng::for_case(ctx.seed, 403, i);
+		crate::monitors::set_current(ctx, "rev", i, "reverse seek", false);
+		let res = super::guarded(|| run_reverse_seek(&mut r, &mut stats));
+		crate::monitors::clear_current();
+		ctx.eval();
+		match res {
+			Ok(Ok(())) => ctx.distinct_key(0xC04_0004_0000 | (i % 97)),
+			Ok(Err(e)) => ctx.violation("rev", i, &e, J::Null),
+			Err(p) => ctx.violation("rev", i, &format!("panic: {}", p.first().map(|p| p.sig()).unwrap_or_default()), J::Null),
+		}
+	}
 	ctx.count("frames_observed", stats.frames);
 	ctx.count("frames_bit_exact_checked", stats.exact);
 	ctx.count("frames_hermite_checked", stats.hermite);
@@ -576,6 +596,66 @@ pub fn run(ctx: &mut Ctx) {
 	ctx.count("seeks_checked", stats.seeks);
 	ctx.count("loop_region_changes", stats.loop_changes);
 	ctx.count("successor_pairs_checked", stats.pair_checks);
+}
+
+/// A reversed sound with a loop region, started above the loop (it plays downwards towards it): a seek to a frame at or
+/// after the loop end, below the current position, lands on that frame (within one frame once the interpolator's window
+/// has refilled) and playback continues downwards from there into the loop.
+fn run_reverse_seek(r: &mut Rng, stats: &mut Stats) -> Result<(), String> {
+	let len = r.usize_in(400, 6000);
+	let sr = *r.pick(&[8000u32, 44100, 48000]);
+	let chunk = *r.pick(&[16usize, 64, 128]);
+	let a = r.usize_in(0, len / 4);
+	let b = r.usize_in(a + 16, len / 2);
+	let frames: Vec<Frame> = (0..len).map(|i| Frame::new((i + 1) as f32, -((i + 1) as f32))).collect();
+	let st = StaticSoundSettings::new().reverse(true).loop_region(Region { start: PlaybackPosition::Samples(a), end: EndPosition::Custom(PlaybackPosition::Samples(b)) });
+	let data = StaticSoundData { sample_rate: sr, frames: frames.into(), settings: st, slice: None };
+	let (mut sound, mut handle): (Box<dyn Sound>, StaticSoundHandle) = data.into_sound().map_err(|_| "into_sound".to_string())?;
+	let info = MockInfoBuilder::new().build();
+	let dt = 1.0 / sr as f64;
+	let mut out = vec![Frame::ZERO; chunk];
+	let heard = |f: &Frame| -> Option<usize> {
+		if f.left >= 1.0 && f.right == -f.left {
+			Some(f.left as usize - 1)
+		} else {
+			None
+		}
+	};
+	// play downwards from the last frame for a while, staying well above the loop end
+	let mut cur = len - 1;
+	let n_before = r.usize_in(1, ((len - b) / chunk / 2).max(1));
+	for _ in 0..n_before {
+		sound.on_start_processing();
+		sound.process(&mut out, dt, &info);
+		if let Some(i) = out.iter().rev().find_map(heard) {
+			cur = i;
+		}
+	}
+	if cur <= b + 32 {
+		return Ok(());
+	}
+	let target = r.usize_in(b, cur - 24);
+	handle.seek_to((target as f64 + 0.25) / sr as f64);
+	sound.on_start_processing();
+	sound.process(&mut out, dt, &info);
+	stats.seeks += 1;
+	for (j, f) in out.iter().enumerate() {
+		if j < 6 {
+			continue;
+		}
+		let want = target as i64 - j as i64;
+		if want < b as i64 + 4 {
+			break;
+		}
+		match heard(f) {
+			Some(i) if (i as i64 - want).abs() <= 4 => {}
+			other => {
+				return Err(format!("reversed sound of {} frames, loop {}..{}, playing downwards at frame {}: {} frames after seek_to(frame {}) the frame heard is {:?}, expected about {} (the target lies at or after the loop end and below the current position, so it is not folded into the loop)", len, a, b, cur, j, target, other, want));
+			}
+		}
+		stats.pair_checks += 1;
+	}
+	Ok(())
 }
 
 pub fn confirm(key: &str) -> Option<Option<String>> {
